@@ -19,6 +19,8 @@ import time
 
 VERIF = os.path.dirname(os.path.dirname(os.path.abspath(__file__)))
 WT = "/tmp/seedverify/wt"
+# patches written before a later `fix:` commit touched the same lines: the commit they apply to
+BASES = {"C08c": "d451ffb"}
 
 
 def sh(cmd, **kw):
@@ -55,7 +57,7 @@ def main():
             print(p.stdout.decode())
             return 2
     sh(["git", "-C", WT, "checkout", "--", "."])
-    sh(["git", "-C", WT, "checkout", "--detach", sh(["git", "-C", "/repo", "rev-parse", "HEAD"]).stdout.decode().strip()])
+    sh(["git", "-C", WT, "checkout", "--detach", BASES.get(name) or sh(["git", "-C", "/repo", "rev-parse", "HEAD"]).stdout.decode().strip()])
 
     def build(tag):
         p = sh(["cargo", "build", "--offline", "--quiet"], cwd=WT, env=env)
@@ -101,14 +103,28 @@ def main():
     if st:
         print("/repo has uncommitted changes; refusing to apply")
         return 2
+    envc = dict(os.environ)
+    in_repo = True
     p = sh(["git", "-C", "/repo", "apply", os.path.join(dst, "patch.diff")])
     if p.returncode:
-        print("patch does not apply to /repo:", p.stdout.decode())
-        return 2
+        # written against an earlier commit (before a later fix: touched the same lines): run the checks against a
+        # scratch worktree at that base commit instead (FSIM_REPO), /repo stays untouched
+        base = BASES.get(name)
+        if not base:
+            print("patch does not apply to /repo:", p.stdout.decode())
+            return 2
+        in_repo = False
+        sh(["git", "-C", WT, "checkout", "--", "."])
+        sh(["git", "-C", WT, "checkout", "--detach", base])
+        if sh(["git", "-C", WT, "apply", os.path.join(dst, "patch.diff")]).returncode:
+            print("patch does not apply to its base either")
+            return 2
+        envc.update(FSIM_REPO=WT, FSIM_CACHE="/tmp/seedverify/cache")
+        meta["base_commit"] = base
     try:
         for c in checks:
             t0 = time.time()
-            cp = sh([os.path.join(VERIF, "check"), c], cwd=VERIF)
+            cp = sh([os.path.join(VERIF, "check"), c], cwd=VERIF, env=envc)
             out = cp.stdout.decode("utf-8", "replace")
             sigs = sorted({l.split("signature=")[1].split(" ")[0] for l in out.splitlines() if "signature=" in l and "KNOWN" not in l})
             results[c] = {"exit": cp.returncode, "signatures": sigs, "wall_s": round(time.time() - t0, 1)}
@@ -116,7 +132,10 @@ def main():
             if cp.returncode == 2:
                 print(out[-1500:])
     finally:
-        sh(["git", "-C", "/repo", "checkout", "--", "."])
+        if in_repo:
+            sh(["git", "-C", "/repo", "checkout", "--", "."])
+        else:
+            sh(["git", "-C", WT, "checkout", "--", "."])
         sh(["git", "-C", VERIF, "checkout", "--", "evidence"])
         # replays written while testing a seeded change are not findings about /repo
         for f in glob.glob(os.path.join(VERIF, "replays", "*.json")):
